@@ -14,7 +14,8 @@ pub fn encoding(data: &[u8], hint: Option<String>) -> Option<&'static Encoding> 
 }
 
 pub(crate) fn decode(data: &[u8], hint: Option<String>) -> String {
-    let enc = encoding(data, hint).unwrap();
+    // fall back to UTF-8 if no known encoding can be determined
+    let enc = encoding(data, hint).unwrap_or(encoding_rs::UTF_8);
     let (s, _, _) = enc.decode(data);
     s.into_owned()
 }
